@@ -11,6 +11,7 @@ from ..core import Facet, Violation, require, canon, setup_path
 from .. import values as V
 
 setup_path()
+from eliot import fields as eliot_fields  # noqa: E402
 from eliot import (  # noqa: E402
     ActionType,
     Field,
@@ -77,7 +78,10 @@ SERS = {
     "len": (lambda v: len(v), "sized"),
     "keys": (lambda v: sorted(v), "dict"),
     "thing": (lambda v: v.x, "thing"),
+    # Field.for_types / fields(k=type): eliot's own pass-through serializer
+    "ftypes": (lambda v: v, "native"),
 }
+NATIVE_CLASSES = [int, str, list, dict, type(None), bool, float]
 
 
 def value_for(kind):
@@ -89,6 +93,8 @@ def value_for(kind):
         return st.dictionaries(st.sampled_from(["a", "b", "c"]), st.integers(0, 3), max_size=3)
     if kind == "thing":
         return st.integers(0, 9).map(lambda x: {V.TAG: "thing", "x": x})
+    if kind == "native":
+        return st.one_of(st.integers(-3, 3), st.text(max_size=3), st.lists(st.integers(0, 2), max_size=2), st.just({"k": [1]}), st.none())
     return st.one_of(st.integers(-3, 3), st.text(max_size=3), st.lists(st.integers(0, 2), max_size=2), st.just({"k": [1]}), st.none())
 
 
@@ -146,7 +152,14 @@ class Scenario(object):
             rec["held"][key] = py
             rec["snap"][key] = copy.deepcopy(py)
             rec["calls"][key] = 0
-            fields.append(Field(key, self._counting(fn, rec, key, fault), ""))
+            if ser == "ftypes":
+                # built by eliot itself; only omission can be injected, calls cannot be counted
+                fields.append(Field.for_types(key, NATIVE_CLASSES, "") if len(key) % 2 else eliot_fields(**{key: type(py)})[0])
+                rec["calls"].pop(key, None)
+                if fault is not None and fault[0] == "raise":
+                    fault = None
+            else:
+                fields.append(Field(key, self._counting(fn, rec, key, fault), ""))
             if fault is not None and fault[0] == "omit":
                 rec["fault"] = True
                 rec["declared"][key] = None
@@ -343,7 +356,7 @@ def check(case):
                     "serialized-value",
                     lambda: "%s message %s: field %r delivered as %r, serializer output is %r" % (rec["kind"], token, key, m.get(key), want),
                 )
-                if not rec.get("no_serializer"):
+                if not rec.get("no_serializer") and key in rec["calls"]:
                     require(
                         rec["calls"][key] == 1,
                         "serializer-call-count",
